@@ -3,7 +3,7 @@ use crate::fields::{mod_n_add, mod_n_from_hash, mod_n_inv, mod_n_mul, mod_n_sub,
 use crate::points::{sm9_u256_pairing, twist_point_add_full, Point, TwistPoint};
 use crate::u256::{sm9_random_u256, u256_cmp, xor, U256};
 use crate::{
-    SM9_HASH1_PREFIX, SM9_HASH2_PREFIX, SM9_HID_ENC, SM9_HID_EXCH, SM9_HID_SIGN, SM9_N_MINUS_ONE,
+    SM9_HASH1_PREFIX, SM9_HASH2_PREFIX, SM9_HID_ENC, SM9_HID_EXCH, SM9_HID_SIGN, SM9_N, SM9_N_MINUS_ONE,
     SM9_POINT_MONT_P1, SM9_TWIST_POINT_MONT_P2,
 };
 use gm_sm3::sm3_hash;
@@ -52,10 +52,17 @@ pub fn generate_enc_master_key() -> Sm9EncMasterKey {
 
 impl Sm9EncKey {
     pub fn decrypt(&self, idb: &[u8], data: &[u8]) -> Sm9Result<Vec<u8>> {
+        // C1 (65 bytes) || C3 (32 bytes) || C2 (1..=255 bytes)
+        if data.len() <= 65 + 32 || data.len() > 65 + 32 + 255 {
+            return Err(Sm9Error::InvalidFieldLen);
+        }
         let c1_bytes = &data[0..65];
         let c2 = &data[(65 + 32)..];
         let c3 = &data[65..(65 + 32)];
         let c1 = Point::from_bytes(c1_bytes);
+        if !c1.is_on_curve() {
+            return Err(Sm9Error::InvalidPoint);
+        }
         let w = sm9_u256_pairing(&self.de, &c1);
         let w_bytes = w.to_bytes_be();
         let mut k_append: Vec<u8> = vec![];
@@ -375,6 +382,13 @@ impl Sm9SignMasterKey {
     }
 
     pub fn verify_sign(&self, id: &[u8], data: &[u8], h: &U256, s: &Point) -> Sm9Result<()> {
+        // B1: h in [1, N-1]; B2: S on the curve
+        if h.is_zero() || u256_cmp(h, &SM9_N) >= 0 {
+            return Err(Sm9Error::InvalidDigest);
+        }
+        if !s.is_on_curve() {
+            return Err(Sm9Error::InvalidPoint);
+        }
         let g = sm9_u256_pairing(&self.ppubs, &SM9_POINT_MONT_P1);
         let t = g.pow(h);
         // B5: h1 = H1(ID || hid, N)
